@@ -220,6 +220,89 @@ func runC18(a *A) {
 	})
 }
 
+// boundedFillOfPrivateChannel: the send goes to a channel this function made and has not yet stored anywhere (no
+// other goroutine can hold it), every send into it in this function is this one, and it is executed only while
+// `k < cap(ch)` holds for the counter k of the sends so far (0, +1 with each send) or `len(ch) < cap(ch)`: the
+// buffer has room, the send cannot block.
+func boundedFillOfPrivateChannel(sd *ssa.Send) bool {
+	mk, ok := sd.Chan.(*ssa.MakeChan)
+	if !ok {
+		if leaves := phiLeaves(sd.Chan); len(leaves) == 1 {
+			mk, ok = leaves[0].(*ssa.MakeChan)
+		}
+		if !ok {
+			return false
+		}
+	}
+	fn := sd.Parent()
+	// private until after the send: every store of the channel is in a block the send's block cannot be reached from
+	for _, r := range *mk.Referrers() {
+		switch y := r.(type) {
+		case *ssa.Store:
+			if y.Val == ssa.Value(mk) && reachesAvoiding2(y.Block(), sd.Block()) {
+				return false
+			}
+		case *ssa.Send:
+			if y != sd && y.Chan == ssa.Value(mk) {
+				return false
+			}
+		case *ssa.MakeClosure, *ssa.Go, *ssa.MapUpdate:
+			return false
+		case *ssa.Call:
+			if _, isCap := isBuiltinCall(y, "cap"); isCap {
+				continue
+			}
+			if _, isLen := isBuiltinCall(y, "len"); isLen {
+				continue
+			}
+			return false // handed to another function
+		}
+	}
+	_ = fn
+	for _, g := range guardsOf(sd.Block()) {
+		bo, ok := g.Cond.(*ssa.BinOp)
+		if !ok || bo.Op != token.LSS || !g.Sense {
+			continue
+		}
+		capOf, ok := bo.Y.(*ssa.Call)
+		if !ok {
+			continue
+		}
+		cc, ok := isBuiltinCall(capOf, "cap")
+		if !ok || cc.Args[0] != ssa.Value(mk) {
+			continue
+		}
+		if l, ok := bo.X.(*ssa.Call); ok {
+			if lc, ok := isBuiltinCall(l, "len"); ok && lc.Args[0] == ssa.Value(mk) {
+				return true
+			}
+		}
+		phi, ok := bo.X.(*ssa.Phi)
+		if !ok {
+			continue
+		}
+		good := true
+		for _, l := range phiLeaves(phi) {
+			if isZeroConst(l) {
+				continue
+			}
+			inc, isInc := l.(*ssa.BinOp)
+			if !isInc || inc.Op != token.ADD || !isConstInt(inc.Y, 1) {
+				good = false
+				continue
+			}
+			// the increment follows this send
+			if inc.Block() != sd.Block() {
+				good = false
+			}
+		}
+		if good {
+			return true
+		}
+	}
+	return false
+}
+
 // ruleBlockingUnderLock: no blocking channel operation without alternative while a lock is held.
 func (a *A) ruleBlockingUnderLock() {
 	L := a.Locks()
@@ -238,6 +321,9 @@ func (a *A) ruleBlockingUnderLock() {
 			switch x := in.(type) {
 			case *ssa.Send:
 				what = "a blocking send"
+				if boundedFillOfPrivateChannel(x) {
+					what = "" // the channel is this function's own and has room: the send returns at once
+				}
 			case *ssa.UnOp:
 				if x.Op == token.ARROW && !x.CommaOk {
 					what = "a blocking receive"
